@@ -320,3 +320,55 @@ func c09Ppf(r *rng, id string) {
 	}
 	emit("C09 ppf id=%s states=%s user=%s stream=%s", id, st, hexOrE(snd.del.state), hx(data))
 }
+
+// rrsLeg: a plaintext state exchange with entries that carry a port, no port (0), and the configured port,
+// through the real readRemoteState; what it hands to the merge is compared with the model.
+func rrsLeg(prop string, r *rng, id string) {
+	proto := uint8(2)
+	if r.chance(1, 5) {
+		proto = 1
+	}
+	n, err := newCnode(ccfg{name: "S", proto: proto})
+	if err != nil {
+		emit("%s rrs id=%s err=create", prop, id)
+		return
+	}
+	defer n.m.Shutdown()
+	k := r.intn(6)
+	var body []byte
+	user := wireBytes(r, []int{0, 0, 1, 40, 300}[r.intn(5)])
+	body = append(body, ml.VerifEncodePushPullHeader(k, len(user), r.chance(1, 2))[1:]...)
+	for i := 0; i < k; i++ {
+		w := ml.VerifWire{Kind: "pushNodeState", Name: fmt.Sprintf("n%d", i), Addr: []byte{10, 0, byte(i), 1},
+			Port: uint16([]int{0, 0, 7946, 7947, 1, 65535}[r.intn(6)]), Incarnation: uint32(1 + r.intn(300)),
+			State: r.intn(4), Vsn: []byte{1, 5, 2, 0, 0, 0}}
+		if r.chance(1, 2) {
+			w.Meta = wireBytes(r, 1+r.intn(40))
+		}
+		b, _ := ml.VerifWireEncode(w)
+		body = append(body, b...)
+	}
+	body = append(body, user...)
+	got, ug := "ERR", "E"
+	func() {
+		defer func() {
+			if rec := recover(); rec != nil {
+				got = "PANIC"
+			}
+		}()
+		_, nodes, u, err := ml.VerifReadRemoteState(n.m, body)
+		if err != nil {
+			return
+		}
+		var sts []string
+		for _, x := range nodes {
+			sts = append(sts, fmt.Sprintf("%s;%d;%s;%s;%d;%d;%s", hexOrE(x.Addr), x.Incarnation, hexOrE(x.Meta), hexOrE([]byte(x.Name)), x.Port, int(x.State), hexOrE(x.Vsn)))
+		}
+		got = "-"
+		if len(sts) > 0 {
+			got = strings.Join(sts, "|")
+		}
+		ug = hexOrE(u)
+	}()
+	emit("%s rrs id=%s proto=%d bind=7946 stream=%s got=%s user=%s", prop, id, proto, hexOrE(body), got, ug)
+}
